@@ -424,6 +424,12 @@ func runC19(c *sim.Ctx) {
 					qreadsDry = qreads
 				}
 				c.Fault("read-error-mid-scan")
+				if s.Chance(1, 2, "eof-error") {
+					// the error a truncated file produces: the file pager returns io.EOF for a
+					// page beyond the end - which database/sql would take for the end of the rows
+					tr.FailErr = io.EOF
+					c.Fault("read-beyond-eof-mid-scan")
+				}
 			}
 			tr.Event = func(kind string, n int, err error) {
 				if closeReturnedA.Load() && (kind == "page" || kind == "lock-ok" || kind == "lock-fail") {
@@ -642,8 +648,9 @@ func runC19(c *sim.Ctx) {
 						cerr := rows.Close()
 						closed = true
 						closeReturnedA.Store(true)
-						if finalErr == nil && cerr == nil {
-							fail("error-swallowed", "error-swallowed", fmt.Sprintf("%s: a page read failed during the scan (read %d); the driver delivered %d of %d rows, then io.EOF, and Close returned nil", query, tr.FailPos(), len(got), len(nat)))
+						_ = cerr // database/sql closes the driver rows itself when Next reports the end and drops what Close returns: only an error from Next (other than io.EOF, which MEANS the end) reaches rows.Err()
+						if finalErr == nil {
+							fail("error-swallowed", "error-swallowed", fmt.Sprintf("%s: a page read failed during the scan (read %d); the driver delivered %d of %d rows and then reported io.EOF, the regular end of the result set, from Next", query, tr.FailPos(), len(got), len(nat)))
 						}
 						c.Probe("mid-scan-fault-surfaced")
 					}
